@@ -137,7 +137,7 @@ func genMassiveScenario(c *Ctx, arm string, nMalformMax int) *massiveScenario {
 		alpha = alphaPlain
 	}
 	fromRoot := c.Chance(1, 8) && arm == "core"
-	fo := forestOpts{maxRoots: 6, maxExtra: 7, alpha: alpha, distinctRoots: needsFS(s.op) || c.Chance(2, 3), maxDepth: 5, maxFan: 4}
+	fo := forestOpts{maxRoots: 6, maxExtra: 7, alpha: alpha, distinctRoots: needsFS(s.op) || c.Chance(2, 3), maxDepth: 5, maxFan: 4, shapes: true}
 	if fromRoot {
 		fo.maxRoots = 1
 		s.op.FromRoot = true
